@@ -9,7 +9,8 @@ import (
 )
 
 type G struct {
-	r *rand.Rand
+	r    *rand.Rand
+	mode string // the property the component is run for (biases the generators)
 }
 
 func newG(seed int64) *G { return &G{r: rand.New(rand.NewSource(seed))} }
